@@ -48,11 +48,12 @@ def row(name):
 
 def main():
     names = sorted(os.path.basename(p) for p in glob.glob(os.path.join(VERIF, "seeded", "C*")))
-    r1 = [n for n in names if "b-" not in n and "c-" not in n]
+    r1 = [n for n in names if "b-" not in n and "c-" not in n and "d-" not in n]
     r2 = [n for n in names if "b-" in n]
     r3 = [n for n in names if "c-" in n]
+    r4 = [n for n in names if "d-" in n]
     out = []
-    for title, ns in (("Round 1", r1), ("Round 2", r2), ("Round 3", r3)):
+    for title, ns in (("Round 1", r1), ("Round 2", r2), ("Round 3", r3), ("Round 4", r4)):
         out.append("**%s** (%d changes)\n" % (title, len(ns)))
         out.append("| seed | change | reported by | first signature |")
         out.append("|---|---|---|---|")
@@ -65,7 +66,7 @@ def main():
     i, j = s.index(b), s.index(e)
     s = s[:i + len(b)] + "\n" + text + s[j:]
     open(p, "w").write(s)
-    print("rows:", len(r1), len(r2), len(r3))
+    print("rows:", len(r1), len(r2), len(r3), len(r4))
 
 
 if __name__ == "__main__":
